@@ -52,3 +52,14 @@ claim("C13", "other",
       "Decides the necessary conditions of prefix accounting on partial failure: lowest-offset reduction from MaxInt64, count = first.off - off with first.err, unconditional error delivery to the drained channel, read-worker error offset = chunk offset + bytes copied with short DATA => io.EOF, sequential loops stop at the first error, WriteTo reducer order/stop/EOF mapping, nil error only with the full length, ReadFrom returns bytes consumed.",
       "Assumes regular files return short reads only at end of file (stated in client.go).",
       "DESIGN.md section 4, C13")
+
+claim("C16", "other",
+      "per-iteration path counts and value provenance on SSA (cursor read/advance, batch slice, status truth table, entry decode completeness)",
+      "Decides the listing cursor discipline of both servers and the client loop on every path: ListAt at the cursor with a MaxFilelist buffer, cursor advanced exactly once by ListAt's own count, reply = finfo[:n], STATUS iff err != nil && (err != EOF || n == 0) (truth table over 6 cases), READDIR handled sequentially, one entry per dirent, client decodes every entry completely, skips exactly '.'/'..', continues after NAME, ends on STATUS/send error, EOF => success.",
+      "Assumes listers honour the ListerAt contract and the directory is not modified during the listing.",
+      "DESIGN.md section 4, C16")
+claim("C18", "other",
+      "ownership/tagging rules: affine comparison of order-id terms, provenance of page tags closed over call sites, dominance (release after send), locksets, who-may-call",
+      "Decides the allocator's ownership discipline that is necessary for invisibility: receive page tagged with the id the packet will get, READ page tagged with the request's own order id at all sites, one shared allocator, release only after the matching send under the head's order id, allocator state under its mutex, lent page leaves the free list and enters the used table, Free only in Serve's deferred function, page slices bounded by the page length. Byte-identity of response streams is not decided.",
+      "Assumes every request is answered (C02) so that every page is eventually released.",
+      "DESIGN.md section 4, C18")
